@@ -134,6 +134,8 @@ def handleW19 (toks : List String) : String :=
         | .ok _ => "ok"
         | .diag _ _ => "diag"
         | .panic _ => "panic"
+      -- `so` = flag placement (0 off, 1 after, 2 before the subcommand) + 4 × delivery mode
+      let so := so % 4
       let w := ",".intercalate ((runSeq (so != 0) true [] srcs).map verdict)
       let f := ",".intercalate (srcs.map fun s => verdict (assemble (so != 0) [] s).1)
       let line := "watch=" ++ w ++ " fresh=" ++ f
